@@ -1089,6 +1089,17 @@ func c17Run(f []string, devs *[]models.Device, devMu *sync.Mutex, updated *[]str
 //   except host = <ip>,<mode>,<vendor>,<model>,<idtype>,<ridhex>.
 //   A dial is "late" if it is accepted more than max_s*1000 + late_slack_ms after the start (max_s = 0: never).
 //   The watchdog gives up as soon as a late dial is seen, or after budget_ms.
+//   Optional 10th field: a configuration HISTORY "<cfg>;<cfg|X>;..": the first <cfg> is the configuration the service
+//   starts with; every further entry is delivered through the real callback Driver.updateWritableConfig, in order
+//   (X: a value that is not a *CustomConfig); finally the configuration given by the request's own fields is delivered
+//   the same way, and then the run starts: it must obey THAT configuration.
+//   <cfg> = <subnets>|<asyncLimit>|<probe_s>|<max_s>|<P|Q>   P: the scan port the hosts listen on, Q: another port (a
+//   connection-counting listener on 0.0.0.0:Q). The debounced discovery that a change of subnets / port arms is
+//   disarmed after every delivery (its timer is stopped), so that only the run started here dials.
+//   Extra observations: qdials (connections to port Q during the run), outside (dials to addresses outside the request's
+//   subnets), inside (distinct addresses dialled inside), wave (dials in the first 60 % of one probe timeout: with hosts that
+//   stay silent = the number of workers), gap_ms (median time between consecutive dials: with one worker and silent hosts =
+//   the probe timeout), debounce=<armed|idle> (whether the last delivery armed the debounced discovery).
 // answer: "<returned|blocked> <elapsed_ms> published=<number of results handed to the SDK channel> reported=<name@ip,..>
 //          dials=<n> late=<n> lastdial_ms=<t> probed=<ip,.. of the special hosts that were dialled> released=<bool>"
 func c17Discover(f []string) string {
@@ -1120,26 +1131,106 @@ func c17Discover(f []string) string {
 	}
 	h := &c17Host{mode: defMode, ln: ln, perIP: per, t0: time.Now()}
 	port := h.port()
-
-	resultCh := make(chan []dsModels.DiscoveredDevice, 4)
-	driver.configMu.Lock()
-	oldCfg := driver.config
-	driver.config = &ServiceConfig{AppCustom: CustomConfig{
+	final := CustomConfig{
 		DiscoverySubnets:           f[1],
 		ProbeAsyncLimit:            async,
 		ProbeTimeoutSeconds:        probeS,
 		ScanPort:                   port,
 		MaxDiscoverDurationSeconds: maxS,
-	}}
+		ProvisionWatcherDir:        "res/provision_watchers",
+	}
+	var hist []string
+	if len(f) > 9 && f[9] != "-" {
+		hist = strings.Split(f[9], ";")
+	}
+	var hq *c17Host
+	if strings.Contains(strings.Join(hist, ";"), "|Q") {
+		if hq, err = c17NewHost(":0", "close", c17Identity{}); err != nil {
+			ln.Close()
+			return "harness-error listen " + err.Error()
+		}
+		defer hq.Close()
+		if hq.port() == port {
+			ln.Close()
+			return "harness-error other port equals scan port"
+		}
+	}
+	parseCfg := func(e string) (*CustomConfig, error) {
+		p := strings.Split(e, "|")
+		if len(p) != 5 {
+			return nil, fmt.Errorf("bad config %q", e)
+		}
+		a, _ := strconv.Atoi(p[1])
+		ps, _ := strconv.Atoi(p[2])
+		mx, _ := strconv.Atoi(p[3])
+		po := port
+		if p[4] == "Q" {
+			po = hq.port()
+		}
+		return &CustomConfig{DiscoverySubnets: p[0], ProbeAsyncLimit: a, ProbeTimeoutSeconds: ps, ScanPort: po,
+			MaxDiscoverDurationSeconds: mx, ProvisionWatcherDir: "res/provision_watchers"}, nil
+	}
+	// a change of subnets / scan port arms a discovery 10 s later: stop its timer, only the run below may dial
+	armed := false
+	disarm := func() {
+		driver.debounceMu.Lock()
+		if driver.debounceTimer != nil {
+			armed = driver.debounceTimer.Stop()
+		} else {
+			armed = false
+		}
+		driver.debounceMu.Unlock()
+	}
+
+	resultCh := make(chan []dsModels.DiscoveredDevice, 4)
+	driver.configMu.Lock()
+	oldCfg := driver.config
 	driver.configMu.Unlock()
 	oldCh := driver.deviceCh
 	driver.deviceCh = resultCh
 	defer func() {
+		disarm()
 		driver.configMu.Lock()
 		driver.config = oldCfg
 		driver.configMu.Unlock()
 		driver.deviceCh = oldCh
 	}()
+	if len(hist) == 0 {
+		driver.configMu.Lock()
+		c := final
+		driver.config = &ServiceConfig{AppCustom: c}
+		driver.configMu.Unlock()
+	} else {
+		c0, err := parseCfg(hist[0])
+		if err != nil {
+			ln.Close()
+			return "harness-error " + err.Error()
+		}
+		driver.configMu.Lock()
+		driver.config = &ServiceConfig{AppCustom: *c0}
+		driver.configMu.Unlock()
+		for _, e := range hist[1:] {
+			if e == "X" {
+				driver.updateWritableConfig(&ServiceConfig{AppCustom: final}) // not a *CustomConfig: must be ignored
+				disarm()
+				continue
+			}
+			c, err := parseCfg(e)
+			if err != nil {
+				ln.Close()
+				return "harness-error " + err.Error()
+			}
+			driver.updateWritableConfig(c)
+			disarm()
+		}
+		c := final
+		driver.updateWritableConfig(&c)
+		disarm()
+	}
+	debounce := "idle"
+	if armed {
+		debounce = "armed"
+	}
 
 	h.mu.Lock()
 	h.t0 = time.Now()
@@ -1189,6 +1280,47 @@ wait:
 		}
 	}
 	n, late, last, ips := stats()
+	// further observations: where and when the run dialled
+	var nets []*net.IPNet
+	for _, cidr := range strings.Split(f[1], ",") {
+		if _, ipn, err := net.ParseCIDR(cidr); err == nil {
+			nets = append(nets, ipn)
+		}
+	}
+	outside, inside, wave := 0, map[string]bool{}, 0
+	var gaps []int
+	h.mu.Lock()
+	times := append([]time.Duration{}, h.accTimes...)
+	for i, ip := range h.accIPs {
+		in := false
+		for _, ipn := range nets {
+			if ipn.Contains(net.ParseIP(ip)) {
+				in = true
+			}
+		}
+		if in {
+			inside[ip] = true
+		} else {
+			outside++
+		}
+		if h.accTimes[i] <= time.Duration(probeS)*600*time.Millisecond {
+			wave++
+		}
+	}
+	h.mu.Unlock()
+	sort.Slice(times, func(i, j int) bool { return times[i] < times[j] })
+	for i := 1; i < len(times); i++ {
+		gaps = append(gaps, int((times[i] - times[i-1]).Milliseconds()))
+	}
+	sort.Ints(gaps)
+	gap := -1
+	if len(gaps) > 0 {
+		gap = gaps[len(gaps)/2]
+	}
+	qdials := 0
+	if hq != nil {
+		qdials = hq.nAccepts()
+	}
 	h.Close() // releases every probe still in flight; later dials are refused at once
 	released := status == "returned"
 	if !released {
@@ -1220,8 +1352,9 @@ drain:
 		}
 	}
 	sort.Strings(probed)
-	return fmt.Sprintf("%s %d published=%d reported=%s dials=%d late=%d lastdial_ms=%d probed=%s released=%v",
-		status, elapsed, published, strings.Join(names, ","), n, late, last.Milliseconds(), strings.Join(probed, ","), released)
+	return fmt.Sprintf("%s %d published=%d reported=%s dials=%d late=%d lastdial_ms=%d probed=%s released=%v qdials=%d outside=%d inside=%d wave=%d gap_ms=%d debounce=%s",
+		status, elapsed, published, strings.Join(names, ","), n, late, last.Milliseconds(), strings.Join(probed, ","), released,
+		qdials, outside, len(inside), wave, gap, debounce)
 }
 
 func TestVerifC17(t *testing.T) {
